@@ -40,11 +40,20 @@ def run(binary, lines, workdir, label, timeout=120):
         f.write('\n'.join(lines) + '\n')
     env = dict(os.environ)
     env.update({'ASAN_OPTIONS': 'detect_leaks=0:abort_on_error=0:exitcode=66:max_malloc_fill_size=65536:malloc_fill_byte=190', 'UBSAN_OPTIONS': 'print_stacktrace=1:exitcode=67',
-                'TSAN_OPTIONS': 'halt_on_error=0:report_signal_unsafe=0:exitcode=0'})
+                # the ThreadSanitizer reports go to their own file: on stderr they interleave with the daemon's log lines in the middle
+                # of a line, and a mangled stack frame makes a known report look like a new one
+                'TSAN_OPTIONS': 'halt_on_error=0:report_signal_unsafe=0:exitcode=0:log_path=' + os.path.join(workdir, label + '.tsan')})
+    import glob
+    for old in glob.glob(os.path.join(workdir, label + '.tsan.*')):
+        os.unlink(old)
     try:
         p = subprocess.run([binary, sp], stdout=subprocess.PIPE, stderr=subprocess.PIPE, text=True, errors='replace', timeout=timeout, env=env)
     except subprocess.TimeoutExpired:
         return None, 'timeout', -1, sp
+    tsan_text = ''
+    for f in sorted(glob.glob(os.path.join(workdir, label + '.tsan.*'))):
+        tsan_text += open(f, errors='replace').read()
+        os.unlink(f)
     per = {}
     cur = None
     for l in p.stdout.split('\n'):
@@ -53,7 +62,7 @@ def run(binary, lines, workdir, label, timeout=120):
             per[cur] = []
         elif cur is not None and l.startswith(('tx ', 'sleep ')):
             per[cur].append(l)
-    san = [l for l in p.stderr.split('\n') if not l.startswith(('DEBUG:', 'WARN:'))]
+    san = [l for l in p.stderr.split('\n') if not l.startswith(('DEBUG:', 'WARN:'))] + tsan_text.split('\n')
     complete = 'daemon rc=' in p.stdout
     return per, '\n'.join(san), (p.returncode if complete else (p.returncode or -2)), sp
 
